@@ -271,6 +271,54 @@ def b64_line_tools(c):
                         {"op": "remove_invalid_utf8_base64", "input_hex": hexs(inp), "output_hex": hexs(out), "expected_hex": hexs(want), "status": st})
 
 
+def parse_range_args(c, drv):
+    """command-line index arguments: model parse_range vs the real docenc (stdin = 12 one-line documents,
+    empty cwd so that a non-index argument is a missing file)."""
+    import tempfile, shutil, itertools
+    exe = repo_bin("docenc")
+    docs = [b"doc%d\n" % i for i in range(1, 13)]
+    b64file = b"".join(pyb64.b64encode(d) + b"\n" for d in docs)
+    pieces = ["", " ", "+", "0", "1", "2", "12", "13", "007", "-", "--", "x", "3-5", "5-3", "2-2", "1-", "-4", "\t9", "4 ", "18446744073709551616", "99999999999999999999", "1-18446744073709551615"]
+    args = set()
+    for a in pieces:
+        for b in ("", "-", "-3", "- 3", "-+3", "-x", "-3x", "-0", "-12"):
+            args.add(a + b)
+    args = sorted(x for x in args if x and not (x[0] == "-" and len(x) > 1 and x[1] in "dq0n") and x != "-")
+    if drv is None:
+        return
+    rc, mout, err = run_lines(drv, ["P " + hexs(a.encode()) for a in args])
+    if len(mout) != len(args):
+        c.broken.append("correspondence parse_range: driver failed rc=%s %s" % (rc, err[-200:]))
+        return
+    tmp = tempfile.mkdtemp(prefix="c09args-", dir="/var/tmp")
+    try:
+        bad = 0
+        for a, mo in zip(args, mout):
+            c.count(("parse_range", a), nontrivial=True, bucket="index-argument/" + mo.split()[0])
+            if mo == "HUGE" or a.startswith("-"):
+                continue      # the tool would allocate the whole range / the argument is an option
+            st, out, err = run_tool([exe, "-d", "-q", a], b64file, timeout=20, cwd=tmp)
+            if st == 0:
+                got = "IDX " + ",".join(str(i + 1) for i, d in enumerate(docs) if d + b"\n" in out and out.count(d) > 0)
+                sel = [int(x) for x in mo.split()[1].split(",")] if mo.startswith("IDX") else None
+                want_out = b"".join(docs[i - 1] + b"\n" for i in sorted(set(sel)) if 1 <= i <= 12) if sel is not None else None
+                ok = sel is not None and out == want_out
+            elif st == 1 and b"Cannot understand" in err:
+                ok = mo == "USAGE"
+            elif st == 1:
+                ok = mo == "FILE"
+            else:
+                ok = False
+            c.cov["traces_validated_against_impl"] += 1
+            if not ok:
+                bad += 1
+                if bad == 1:
+                    c.broken.append("correspondence parse_range: argument %r: model=%s, docenc status %s stdout %r stderr %r" % (a, mo, st, out[:80], err[:120]))
+        c.sample({"op": "index-argument", "arg": args[len(args) // 2], "model": mout[len(args) // 2]})
+    finally:
+        shutil.rmtree(tmp, ignore_errors=True)
+
+
 def replay(c):
     """bin/check C09 --replay file: re-run the recorded input on the current tree."""
     import json
@@ -375,6 +423,7 @@ def main(argv):
                                     {"op": "decode", "input_hex": hexs(b), "impl": o, "expected_hex": hexs(raw)})
     docenc_tool(c, drv)
     b64_line_tools(c)
+    parse_range_args(c, drv)
     from coqchk import thorough_coqchk
     thorough_coqchk(c)
     return c.finish(level="proof",
